@@ -1271,3 +1271,127 @@ func runDelta1(m *Model, r *RuleResult) {
 		}
 	}
 }
+
+// ---------- STALE-1 ----------
+
+func init() {
+	register(&Rule{
+		ID: "STALE-1",
+		Doc: "a test-and-set stays together (stale-guard rule): when a function tests a map cell M[k] and, under that test, stores a computed value into the same cell inside a loop in which k does not change, " +
+			"the test is evaluated inside that loop - once per iteration - unless the loop cannot go round again after the store. A guard hoisted in front of the loop is true on entry and says nothing after the first store: " +
+			"what was meant to happen at most once per key happens once per iteration (a node aligned with both of its median neighbours closes no block cycle, and the compaction that walks the cycle never comes back to its root)",
+		Floor: 1,
+		Ctl:   []string{"internal__phase4__stale1.go.txt"},
+		Run:   runStale1,
+	})
+}
+
+func runStale1(m *Model, r *RuleResult) {
+	for _, f := range m.Src {
+		if !inModule(f) || len(f.Blocks) == 0 || !(m.Reach[f] || m.FuncIsPosctl(f)) {
+			continue
+		}
+		if m.FuncIsPosctl(f) && !strings.Contains(f.Name(), "Stale1") {
+			continue
+		}
+		loops := naturalLoops(f)
+		if len(loops) == 0 {
+			continue
+		}
+		// guards: If blocks whose condition mentions a lookup M[k]
+		type guard struct {
+			blk *ssa.BasicBlock
+			lk  *ssa.Lookup
+		}
+		var guards []guard
+		for _, b := range f.Blocks {
+			iff, ok := b.Instrs[len(b.Instrs)-1].(*ssa.If)
+			if !ok {
+				continue
+			}
+			ment := map[ssa.Value]bool{}
+			mentioned(iff.Cond, 0, ment)
+			for v := range ment {
+				if lk, ok := v.(*ssa.Lookup); ok {
+					if _, isMap := lk.X.Type().Underlying().(*types.Map); isMap {
+						guards = append(guards, guard{b, lk})
+					}
+				}
+			}
+		}
+		if len(guards) == 0 {
+			continue
+		}
+		n := 0
+		eachInstr(f, func(in ssa.Instruction) {
+			mu, ok := in.(*ssa.MapUpdate)
+			if !ok {
+				return
+			}
+			if _, isConst := mu.Value.(*ssa.Const); isConst {
+				return // marking with a constant is idempotent
+			}
+			ls := loopsContaining(loops, mu.Block())
+			if len(ls) == 0 {
+				return
+			}
+			// innermost loop in which the key is invariant
+			var l *loopInfo
+			for _, c := range ls {
+				ki, isInstr := mu.Key.(ssa.Instruction)
+				if isInstr && c.Body[ki.Block()] {
+					continue
+				}
+				if l == nil || len(c.Body) < len(l.Body) {
+					l = c
+				}
+			}
+			if l == nil {
+				return
+			}
+			var inside, outside []guard
+			for _, g := range guards {
+				if g.lk.Index != mu.Key || !sameMapValue(g.lk.X, mu.Map) {
+					continue
+				}
+				if !(g.blk == mu.Block() || g.blk.Dominates(mu.Block())) {
+					continue
+				}
+				if l.Body[g.blk] {
+					inside = append(inside, g)
+				} else {
+					outside = append(outside, g)
+				}
+			}
+			if len(inside) == 0 && len(outside) == 0 {
+				return
+			}
+			n++
+			key := fmt.Sprintf("test-and-set-together:%s#%d", funcKey(f), n)
+			ctl := m.FuncIsPosctl(f)
+			// can the loop go round again after the store?
+			again := false
+			seen := map[*ssa.BasicBlock]bool{}
+			stack := []*ssa.BasicBlock{mu.Block()}
+			for len(stack) > 0 && !again {
+				b := stack[len(stack)-1]
+				stack = stack[:len(stack)-1]
+				for _, s := range b.Succs {
+					if s == l.Head {
+						again = true
+					}
+					if l.Body[s] && !seen[s] && s != l.Head {
+						seen[s] = true
+						stack = append(stack, s)
+					}
+				}
+			}
+			if len(inside) > 0 || !again {
+				r.add(Obligation{Key: key, Pos: m.Pos(mu.Pos()), Desc: "the test of the cell and the store into it are in the same iteration", Verdict: "holds", Control: ctl})
+			} else {
+				r.add(Obligation{Key: key, Pos: m.Pos(mu.Pos()), Desc: "a cell that is tested before it is set is tested in the iteration that sets it", Verdict: "violation",
+					Detail: fmt.Sprintf("the store at %s is guarded by the test of the same cell at %s, which lies in front of the loop: true on entry, it is not evaluated again after the first store, and the loop stores into the cell once per iteration", m.Pos(mu.Pos()), m.Pos(lastPos(outside[0].blk))), Control: ctl})
+			}
+		})
+	}
+}
